@@ -87,6 +87,44 @@ theorem fanout_counter_is_confined_to_the_collector :
       (fun (_, x, _, _, _) => x) = ["newProject.Services"] := by
   decide
 
+
+/-! ### what the workers only READ is frozen before the first goroutine exists -/
+
+set_option maxRecDepth 8192 in
+/-- **the options are frozen before `walk`**: the fields of `Options` (`inverse`, `maxConcurrency`, `after` — read without a
+    lock by `skip`, `adjacentNodes`, `extremityNodes`, `walk`, and under `t.mu` by `ready`) are stored to only by the three
+    option constructors, whose closures `CollectInDependencyOrder` applies in a loop that precedes the call of `walk`;
+    no function of the parallel region stores to them -/
+theorem traversal_options_frozen_before_walk :
+    travOptionFields = ["inverse", "maxConcurrency", "after"] ∧
+    (travOptionFieldAccesses.filter (fun (_, _, k, _) => k == "write")).map (fun (e, f, _, _) => (e, f)) =
+      [("o.maxConcurrency", "graph.WithMaxConcurrency"), ("o.inverse", "graph.InReverseOrder"),
+       ("o.after", "graph.WithRootNodesAndDown")] ∧
+    travOptionsAppliedBeforeWalk = true ∧
+    (travOptionFieldAccesses.filter (fun (_, f, k, _) => k == "write" && travParallelFuncs.any (fun g => g == f))) = [] ∧
+    (travOptionFieldAccesses.filter (fun (_, _, k, _) => k == "read")).map (fun (e, f, _, _) => (e, f)) =
+      [("t.maxConcurrency", "graph.walk"), ("t.maxConcurrency", "graph.walk"),
+       ("t.inverse", "graph.traversal.extremityNodes"), ("t.inverse", "graph.traversal.adjacentNodes"),
+       ("t.inverse", "graph.traversal.ready"), ("t.after", "graph.traversal.skip"), ("t.after", "graph.traversal.skip"),
+       ("t.after", "graph.traversal.skip")] := by
+  decide
+
+set_option maxRecDepth 8192 in
+/-- **the dependency graph is frozen before `walk`**: the fields of `vertex` / `graph` (`key, service, children, parents,
+    vertices` — what `skip / descendents / ready / adjacentNodes / roots / leaves` read from concurrent workers) are stored
+    to only by `addVertex`, `addEdge`, `newGraph`; `CollectInDependencyOrder` calls `newGraph` in a statement before the
+    one that calls `walk`; none of the three is in the parallel region.  A memo field added to `vertex` and filled on
+    first use is a new field AND a new store here -/
+theorem traversal_graph_frozen_before_walk :
+    graphStructFields = ["key", "service", "children", "parents", "vertices"] ∧
+    graphStructFieldWrites =
+      [("g.vertices", "graph.graph.addVertex"), ("g.vertices[src].children", "graph.graph.addEdge"),
+       ("g.vertices[dest].parents", "graph.graph.addEdge"), ("src.children", "graph.newGraph"),
+       ("dest.parents", "graph.newGraph")] ∧
+    graphBuiltBeforeWalk = true ∧
+    (graphStructFieldWrites.filter (fun (_, f) => travParallelFuncs.any (fun g => g == f))) = [] := by
+  decide
+
 /-! ### the lockset discipline of the traversal, from the regenerated tables alone -/
 
 /-- one access of the parallel region: location, is-write, mutexes held, where it runs (`worker` = any goroutine of the
